@@ -93,6 +93,8 @@ func (c *fmtCase) fragments(imports map[string]string) []string {
 		switch it.K {
 		case "block":
 			frags = append(frags, it.S)
+		case "nest":
+			frags = append(frags, strings.SplitN(it.S, "\x1e", 3)...)
 		case "ref":
 			name := it.Name
 			if it.Path != "" {
@@ -489,7 +491,7 @@ func genBodyItems(r *Rng, mod, self string, id *int) []PItem {
 	for i := 0; i < n; i++ {
 		*id++
 		k := *id
-		switch r.Intn(23) {
+		switch r.Intn(24) {
 		case 21, 22:
 			i := r.Intn(len(c01Chains))
 			ref := c01Refs[i]
@@ -565,6 +567,14 @@ func genBodyItems(r *Rng, mod, self string, id *int) []PItem {
 				{fmt.Sprintf("func K%d() string { return `x", k), "y` }\n"},
 			})
 			items = append(items, PItem{K: "block", S: parts[0]}, PItem{K: "block", S: parts[1]})
+		case 23:
+			if r.Chance(2) {
+				// a helper rendered on demand, in the middle of a lazy sequence of declarations
+				items = append(items, PItem{K: "nest", S: fmt.Sprintf("func (l List%d) Len() int { return len(l) }\n\n\x1efunc less%d(a, b int) bool { return a < b }\n\n\x1efunc (l List%d) Less(i, j int) bool { return less%d(l[i], l[j]) }\n\n", k, k, k, k)},
+					PItem{K: "block", S: fmt.Sprintf("type List%d []int\n", k)})
+			} else {
+				items = append(items, PItem{K: "block", S: fmt.Sprintf("var Q%d = %d\n", k, k)})
+			}
 		case 15:
 			if r.Chance(6) {
 				items = append(items, PItem{K: "block", S: "//go:build linux\n\n"}) // known-finding territory (F18)
